@@ -387,6 +387,12 @@ example : ∃ ub, utf8 (List.replicate 128 0xE9) = .ok ub ∧ 255 < ub.length :=
 theorem connectOne_ctor_raises (e : PyExc) (a : Attempt) (as : List Attempt) (i : Nat)
     (last : Option PyExc) : connectOne (.error e) (a :: as) i last = .escaped e := rfl
 
+/-- ... and no connection is made, let alone written to: `_connect_one` with a raising
+    constructor tries no entry at all -/
+theorem connectOneSent_ctor_raises (e : PyExc) (as : List Attempt) :
+    connectOneSent (.error e) as = [] := by
+  cases as <;> rfl
+
 /-- **Completeness**: everything the protocols *can* express is accepted (so the parse theorems
     above are not vacuous): SOCKS4 with any IPv4 address, SOCKS4a with any IPv4 address other
     than the marker addresses 0.0.0.x (x ≠ 0) or any host name, SOCKS5 with any destination, user ids without NUL, RFC 1929 fields of 1..255 bytes. -/
